@@ -174,11 +174,16 @@ func truncation(id string, e *enc) {
 
 // ---- fault space 2 ----------------------------------------------------------------------
 
+// mutant: the valid encoding with del bytes at off replaced by ins (materialised per chunk)
 type mutant struct {
 	where string // "<kind>/<name>" of the field hit
 	what  string // the hostile value, for the replay file
-	b     []byte
+	off   int
+	del   int
+	ins   []byte
 }
+
+func (m *mutant) bytes(valid []byte) []byte { return splice(valid, m.off, m.del, m.ins) }
 
 func be(width int, v uint64) []byte {
 	out := make([]byte, width)
@@ -232,7 +237,7 @@ func mutantsOf(b []byte, f refcodec.Field, isDecimalCount bool) []mutant {
 		if del == len(ins) && bytes.Equal(b[f.Off:f.Off+del], ins) {
 			return // the valid encoding itself
 		}
-		out = append(out, mutant{where, what, splice(b, f.Off, del, ins)})
+		out = append(out, mutant{where, what, f.Off, del, ins})
 	}
 	raw := func(vals ...uint64) {
 		for _, v := range vals {
@@ -347,9 +352,7 @@ func corruptions(e *enc, r *vlib.Rand) []mutant {
 				if e.B[p] == v {
 					continue
 				}
-				m := append([]byte(nil), e.B...)
-				m[p] = v
-				out = append(out, mutant{where, fmt.Sprintf("byte at offset %d := 0x%02x", p, v), m})
+				out = append(out, mutant{where, fmt.Sprintf("byte at offset %d := 0x%02x", p, v), p, 1, []byte{v}})
 			}
 		}
 		c.Count("encodings_every_byte_overwritten", 1)
@@ -407,7 +410,7 @@ func hostileChunk(id string, e *enc, d *decoder, muts []mutant, pPanicked, pRetu
 			c.Count("corruptions_skipped_field_already_violating", 1)
 			continue
 		}
-		reqs = append(reqs, req{e.Dec, m.b})
+		reqs = append(reqs, req{e.Dec, m.bytes(e.B)})
 		idx = append(idx, i)
 	}
 	if len(reqs) == 0 {
@@ -421,11 +424,12 @@ func hostileChunk(id string, e *enc, d *decoder, muts []mutant, pPanicked, pRetu
 	*pDone += int64(len(results))
 	for j, rs := range results {
 		m := muts[idx[j]]
+		mb := reqs[j].b
 		c.SetAdd("corruption_pairs", d.Name+"|"+m.where)
 		detail := func(extra map[string]interface{}) func() map[string]interface{} {
 			return func() map[string]interface{} {
 				x := map[string]interface{}{"decoder": d.Name, "family": e.Family, "case": id, "field": m.where, "hostile_value": m.what,
-					"input_len": len(m.b), "input_hex": hexCap(m.b, 2048), "valid_encoding_hex": hexCap(e.B, 2048)}
+					"input_len": len(mb), "input_hex": hexCap(mb, 2048), "valid_encoding_hex": hexCap(e.B, 2048)}
 				for k, v := range extra {
 					x[k] = v
 				}
@@ -437,11 +441,11 @@ func hostileChunk(id string, e *enc, d *decoder, muts []mutant, pPanicked, pRetu
 			case "fatal":
 				c.Count("process_fatal_decodes", 1)
 				costly[d.Name+"|"+m.where]++
-				fail(d.Name+":fatal@"+m.where, fmt.Sprintf("decoding a %d-byte input with a hostile %s (%s) ended the process: %s", len(m.b), m.where, m.what, rs.died.Reason),
+				fail(d.Name+":fatal@"+m.where, fmt.Sprintf("decoding a %d-byte input with a hostile %s (%s) ended the process: %s", len(mb), m.where, m.what, rs.died.Reason),
 					detail(map[string]interface{}{"stderr": rs.died.Stderr}))
 			case "nonterminating":
 				expensive[d.Name+"|"+m.where]++
-				fail(d.Name+":nonterminating@"+m.where, fmt.Sprintf("decoding a %d-byte input with a hostile %s (%s): %s", len(m.b), m.where, m.what, rs.died.Reason), detail(nil))
+				fail(d.Name+":nonterminating@"+m.where, fmt.Sprintf("decoding a %d-byte input with a hostile %s (%s): %s", len(mb), m.where, m.what, rs.died.Reason), detail(nil))
 			default:
 				c.Inconclusive(id, rs.died.Kind+": "+rs.died.Reason)
 			}
@@ -452,7 +456,7 @@ func hostileChunk(id string, e *enc, d *decoder, muts []mutant, pPanicked, pRetu
 		} else {
 			*pReturned++
 		}
-		bound := uint64(allocSlope*len(m.b) + allocConst)
+		bound := uint64(allocSlope*len(mb) + allocConst)
 		c.Max("max_alloc_bytes_one_decode", int64(rs.m.Alloc))
 		c.Max("max_alloc_permille_of_bound", int64(rs.m.Alloc*1000/bound))
 		c.Max("max_cpu_ms_one_decode", rs.m.CPU.Milliseconds())
@@ -460,12 +464,12 @@ func hostileChunk(id string, e *enc, d *decoder, muts []mutant, pPanicked, pRetu
 			c.Count("alloc_bound_exceeded", 1)
 			costly[d.Name+"|"+m.where]++
 			fail(d.Name+":alloc-from-count@"+m.where,
-				fmt.Sprintf("decoding a %d-byte input with a hostile %s (%s) allocated %d bytes (bound 64·len+1 MiB = %d)", len(m.b), m.where, m.what, rs.m.Alloc, bound),
+				fmt.Sprintf("decoding a %d-byte input with a hostile %s (%s) allocated %d bytes (bound 64·len+1 MiB = %d)", len(mb), m.where, m.what, rs.m.Alloc, bound),
 				detail(map[string]interface{}{"allocated": rs.m.Alloc, "bound": bound, "panicked": rs.m.Panicked}))
 		}
 		if rs.m.CPU > cpuLimit {
 			expensive[d.Name+"|"+m.where]++
-			fail(d.Name+":nonterminating@"+m.where, fmt.Sprintf("decoding a %d-byte input with a hostile %s (%s) consumed %v of CPU", len(m.b), m.where, m.what, rs.m.CPU), detail(nil))
+			fail(d.Name+":nonterminating@"+m.where, fmt.Sprintf("decoding a %d-byte input with a hostile %s (%s) consumed %v of CPU", len(mb), m.where, m.what, rs.m.CPU), detail(nil))
 		}
 	}
 }
